@@ -43,6 +43,8 @@ func main() {
 		runC16(*tier, *seed, out)
 	case "C07", "C08":
 		runCollator(id, *tier, *seed, out)
+	case "C11":
+		runC11(*tier, *seed, out)
 	case "C12":
 		runC12(*tier, *seed, out)
 	case "C09":
